@@ -155,7 +155,21 @@ static void bitArrayCase(Rng& rng, unsigned maxOps) {
 
 struct Five { uint8_t b[5]; bool operator!=(const Five& o) const { return memcmp(b, o.b, 5) != 0; } bool operator==(const Five& o) const { return !(*this != o); } };
 
+// an element type whose move differs from its copy: a moved-from element is recognisably spent
+struct Tok {
+	uint32_t v = 0;
+	Tok() = default;
+	explicit Tok(uint32_t x) : v(x) {}
+	Tok(const Tok& o) : v(o.v) {}
+	Tok(Tok&& o) noexcept : v(o.v) { o.v = 0xDEADBEEFu; }
+	Tok& operator=(const Tok& o) { v = o.v; return *this; }
+	Tok& operator=(Tok&& o) noexcept { v = o.v; o.v = 0xDEADBEEFu; return *this; }
+	bool operator==(const Tok& o) const { return v == o.v; }
+	bool operator!=(const Tok& o) const { return v != o.v; }
+};
+
 template <typename T> static T mk(uint64_t v);
+template <> Tok mk<Tok>(uint64_t v) { return Tok(static_cast<uint32_t>(v) & 0x7fffffffu); }
 template <> uint8_t mk<uint8_t>(uint64_t v) { return static_cast<uint8_t>(v); }
 template <> uint32_t mk<uint32_t>(uint64_t v) { return static_cast<uint32_t>(v); }
 template <> Five mk<Five>(uint64_t v) { Five f; for (int i = 0; i < 5; ++i) f.b[i] = static_cast<uint8_t>(v >> (8 * i)); return f; }
@@ -283,7 +297,23 @@ static void dynamicArrayCase(Rng& rng, unsigned maxOps, const char* tname) {
 			const T v = mk<T>(rng.next());
 			const unsigned how = rng.below(4);
 			unsigned idx = 0;
-			if (how == 0) { idx = a.emplace(v); }
+			if (how == 0) {
+				// inserted from a named, non-const object: the object is copied, not consumed; now and then the object is an
+				// element of the array itself
+				if (!m.empty() && rng.chance(1, 4)) {
+					const unsigned src = rng.below(static_cast<uint32_t>(m.size()));
+					idx = a.emplace(a[src]);
+					m.push_back(m[src]);
+					l.op("appendOwnElement", src); g_stats.add2("ops", "darr.append-own-element");
+					if (idx != m.size() - 1) viol(fmt("dynarray.emplace-index|T=%s", tname), fmt("DynamicArrayT<%s,%u>: emplace returned %u, expected %zu", tname, C, idx, m.size() - 1));
+					if (m.size() == C) nontrivial = true;
+					checkAll("append");
+					continue;
+				}
+				T named = v;
+				idx = a.emplace(named);
+				if (named != v) viol(fmt("dynarray.emplace-consumed-its-argument|T=%s", tname), fmt("DynamicArrayT<%s,%u>: emplace(lvalue) changed the object it was given; %s", tname, C, l.text.c_str()));
+			}
 			else if (how == 1) { T tmp = v; idx = a.emplace(static_cast<T&&>(tmp)); }
 			else if (how == 2) { a += v; idx = static_cast<unsigned>(m.size()); }
 			else { T tmp = v; a += static_cast<T&&>(tmp); idx = static_cast<unsigned>(m.size()); }
@@ -333,6 +363,7 @@ static void capacityCases(Rng& rng, unsigned casesPer, unsigned maxOps) {
 		dynamicArrayCase<uint8_t, C>(rng, maxOps, "u8");
 		dynamicArrayCase<uint32_t, C>(rng, maxOps, "u32");
 		dynamicArrayCase<Five, C>(rng, maxOps, "five");
+		dynamicArrayCase<Tok, C>(rng, maxOps, "move-aware");
 	}
 	g_stats.add2("capacities", std::to_string(C), casesPer);
 }
@@ -518,6 +549,34 @@ static void runFields(Rng& rng, const std::vector<Field>& fields, const char* ki
 			if (rs2.cursor() != pos || ws2.cursor() != pos) { viol("stream.cursor|interleaved", fmt("BitStreams<%u>: cursors %u/%u after field ending at bit %u", CAP, unsigned(ws2.cursor()), unsigned(rs2.cursor()), pos)); break; }
 		}
 		if (memcmp(&shared, &g.buf, sizeof shared) != 0) viol("stream.buffer!=reference|interleaved", fmt("StreamBufferT<%u>: interleaved writing produced other bytes than sequential writing", CAP));
+	}
+	// a value that is handed over as an lvalue living in the very buffer being written (the byte the cursor stands in, or
+	// any other byte of it): what is stored is the value at the moment of the call
+	if constexpr (CAP >= 16) {
+		Buf own;
+		memset(static_cast<void*>(&own), 0xFF, sizeof own);
+		ffsm2::detail::BitWriteStreamT<CAP> wa{own};
+		RefBits refA(BYTES * 8);
+		unsigned pos = 0;
+		for (const Field& f : fields) {
+			if (pos + f.w + 8 > CAP) break;
+			wt[f.w - 1](wa, f.v);
+			refA.write(pos, f.w, f.v);
+			pos += f.w;
+			// now 8 bits taken straight from a byte of the buffer
+			const unsigned srcByte = rng.chance(2, 3) ? pos / 8 : rng.below((pos + 7) / 8 ? (pos + 7) / 8 : 1);
+			const uint8_t value = own.data()[srcByte];
+			wa.template write<8>(own.data()[srcByte]);
+			refA.write(pos, 8, value);
+			pos += 8;
+			g_stats.add2("ops", "stream.write-aliased-byte");
+			bool same = wa.cursor() == pos;
+			for (unsigned j = 0; same && j < BYTES; ++j) same = own.data()[j] == refA.byte(j);
+			if (!same) {
+				viol(fmt("stream.buffer!=reference|value-aliases-buffer|off=%u", (pos - 8) & 7), fmt("BitWriteStreamT<%u>: write<8>(buffer byte %u = 0x%02x) at bit %u did not store that value; fields: %s", CAP, srcByte, value, pos - 8, l.text.c_str()));
+				break;
+			}
+		}
 	}
 	// buffer equality operators agree with byte comparison
 	{
